@@ -189,9 +189,6 @@ Section Sim.
   Lemma one_token_sim p p' k : R p p' -> R (p + 1) (p' + 1) -> mr_sim (one_token p k) (one_token p' k).
   Proof. intros. constructor; auto; constructor. Qed.
 
-  (** anchored at [idx]: a match starts where it was asked to *)
-  Definition anchored (idx : N) (m : mr) : Prop := has_match m = true -> mr_start m = idx.
-
   Lemma anchored_sim idx idx' m m' : R idx idx' -> mr_sim m m' -> anchored idx m -> anchored idx' m'.
   Proof.
     intros Hi Hm Ha H. rewrite (has_match_sim _ _ Hm) in H. specialize (Ha H).
@@ -480,7 +477,7 @@ Section Sim.
     Variables rec rec' : N -> N -> N -> list N -> res mr.
     Hypothesis Hrec : forall n p p' len len' terms, R p p' -> R len len' -> TA terms ->
       res_sim mr_sim (rec n p len terms) (rec' n p' len' terms).
-    Hypothesis Hanch : forall n p len terms m, anch U n = true -> rec n p len terms = ROk m -> anchored p m.
+    Hypothesis Hanch : forall n p len terms m, anch U n = true -> p <= len -> rec n p len terms = ROk m -> anchored p m.
     Hypothesis Honetok : forall n p len terms m, onetok g n = true -> rec n p len terms = ROk m ->
       has_match m = true -> mr_end m = p + 1 /\ exists t, tk p = Some t /\ sigb t = true.
 
@@ -545,16 +542,17 @@ Section Sim.
     Qed.
 
     Lemma longest_loop_sim idx idx' len len' terms : R idx idx' -> R len len' -> TA terms ->
+      idx <= len ->
       forall opts best best' bm, all_anch U opts = true -> mr_sim best best' -> anchored idx best ->
       res_sim prel (longest_loop g toks rec opts idx len terms best bm)
                    (longest_loop g toks' rec' opts idx' len' terms best' bm).
     Proof.
-      intros Hi Hl Ht. induction opts as [|o opts IH]; intros best best' bm Ha Hb Ab; cbn [longest_loop].
+      intros Hi Hl Ht Hil. induction opts as [|o opts IH]; intros best best' bm Ha Hb Ab; cbn [longest_loop].
       - split; [exact Hb|reflexivity].
       - cbn in Ha. apply andb_true_iff in Ha as [Hao Ha].
         destruct (ckey_of g o); cbn [bind]; try (cbn; auto; fail).
         eapply res_sim_bind_eq; [apply Hrec; assumption|]. intros r r' Er Er' Hr.
-        pose proof (Hanch _ _ _ _ _ Hao Er) as Ar.
+        pose proof (Hanch _ _ _ _ _ Hao Hil Er) as Ar.
         rewrite (has_match_sim _ _ Hr). pose proof (mr_sim_end _ _ Hr) as He. rcmp.
         destruct (has_match r && (mr_end r =? len)); [split; [exact Hr|reflexivity]|].
         rewrite (mlen_ltb_sim idx idx' best best' r r' Hi Hb Hr Ab Ar).
@@ -578,8 +576,9 @@ Section Sim.
       rewrite (prune_sim ms len len' Hl _ idx idx' eq_refl Hi).
       destruct (prune g toks ms len idx) as [avail| | |] eqn:Ep; cbn [bind]; try (cbn; auto; fail).
       destruct (is_empty avail); [split; [apply empty_at_sim; exact Hi|reflexivity]|].
-      eapply res_sim_bind; [apply (tok_sim len len' idx idx' Hl Hi)|]. intros _ _ _.
-      apply longest_loop_sim; try assumption.
+      eapply res_sim_bind_eq; [apply (tok_sim len len' idx idx' Hl Hi)|]. intros t0 t0' Et0 _ _.
+      apply (tok_lt toks) in Et0.
+      apply longest_loop_sim; try assumption; [lia| | |].
       - eapply prune_sub; eassumption.
       - apply empty_at_sim; exact Hi.
       - intro H. reflexivity.
